@@ -265,7 +265,7 @@ pub fn sweep_f32(ctx: &Ctx) {
                 .map(|&b| {
                     let mut ev = 0u64;
                     let mut nt = 0u64;
-                    let base = VRng::from_env(seed);
+                    let base = VRng::mix(seed);
                     for i in 0..(1u64 << 16) {
                         let v = (b << 16) | i;
                         if !full && !(v % 16 == 0 || v < 4096 || v >= (1 << 24) - 4096) {
